@@ -37,8 +37,11 @@ def run(tier):
     for a in (["binary_spray", "epidemic"] if quick else ALGOS):
         plans.append(dict(name="duplicate", fam=dupfam, algo=a, budget=4, steps=5 if quick else 6, allpaths=True, cap=150 if quick else 3000, mc=False,
                           prefer=lambda h: duplicates(h) * (1 + sum(len(st["exp"]["sends"]) for st in h))))
+    # a bundle of this node's own application comes back from a peer after the node lost it: the peer it came from is remembered all the
+    # same (the spray variants give such a bundle a fresh budget, which Core.tla does not describe: not for them)
+    famo = dict(fam, cat=dict(fam["cat"], b5=attr("p1", "far", prev="p1", ownsrc=True)))
     for a in ALGOS:
-        plans.append(dict(name="prev", fam=fam, algo=a, budget=4, steps=4 if quick else 5, sim=(30, 12) if quick else (800, 18),
+        plans.append(dict(name="prev", fam=fam if "spray" in a else famo, algo=a, budget=4, steps=4 if quick else 5, sim=(30, 12) if quick else (800, 18),
                           cap=170 if quick else None, mc=(not quick or a in ("epidemic", "dtlsr"))))
         if not quick:
             plans.append(dict(name="prev4", fam=fam4, algo=a, budget=4, steps=4, sim=(800, 16)))
